@@ -964,14 +964,20 @@ def mctmp(tag, overrides=None, expect=False):
     return dict(module="TmpNodes.tla", cfg="MC_TmpNodes.cfg", tag=tag, overrides=overrides or {}, expect_violation=expect, timeout=900, workers=4)
 
 
+def mcpar(tag, cfg):
+    return dict(module="TmpNodesPar.tla", cfg=cfg, tag=tag, overrides={}, expect_violation=(cfg == "MC_TmpNodesParSens.cfg"), timeout=900, workers=4)
+
+
 def all_subsets(n):
     return [[i for i in range(n) if m >> i & 1] for m in range(1 << n)]
 
 
 MAIN["C13"] = dict(
-    mc=dict(quick=[mcn("ids_2x3"), mcn("sens_non_atomic", {"Atomic": "FALSE", "MaxReq": "2"}, expect=True)] + [mcr(u) for u in ([], [1, 4], [0, 1, 2], [5], [0, 2, 3, 5])] + [mctmp("write_back_buffer_3ops"), mctmp("sens_buffer_without_the_deleted_filter", {"FilterDeleted": "FALSE"}, expect=True)],
+    mc=dict(quick=[mcn("ids_2x3"), mcn("sens_non_atomic", {"Atomic": "FALSE", "MaxReq": "2"}, expect=True)] + [mcr(u) for u in ([], [1, 4], [0, 1, 2], [5], [0, 2, 3, 5])] + [mctmp("write_back_buffer_3ops"), mctmp("sens_buffer_without_the_deleted_filter", {"FilterDeleted": "FALSE"}, expect=True),
+              mcpar("two_buffers_over_disjoint_ids_commute", "MC_TmpNodesPar.cfg"), mcpar("sens_two_buffers_sharing_an_id", "MC_TmpNodesParSens.cfg")],
             thorough=[mcn("ids_2x3"), mcn("ids_3x3", {"Threads": "{1, 2, 3}", "MaxReq": "3"}, timeout=900),
-                      mcn("sens_non_atomic", {"Atomic": "FALSE", "MaxReq": "2"}, expect=True)] + [mcr(u) for u in all_subsets(6)] + [mctmp("write_back_buffer_4ops", {"MaxOps": "4"}), mctmp("sens_buffer_without_the_deleted_filter", {"FilterDeleted": "FALSE"}, expect=True)]),
+                      mcn("sens_non_atomic", {"Atomic": "FALSE", "MaxReq": "2"}, expect=True)] + [mcr(u) for u in all_subsets(6)] + [mctmp("write_back_buffer_4ops", {"MaxOps": "4"}), mctmp("sens_buffer_without_the_deleted_filter", {"FilterDeleted": "FALSE"}, expect=True),
+                 mcpar("two_buffers_over_disjoint_ids_commute", "MC_TmpNodesPar.cfg"), mcpar("sens_two_buffers_sharing_an_id", "MC_TmpNodesParSens.cfg")]),
     proofs=dict(quick=["NodeIdsProof.tla"], thorough=["NodeIdsProof.tla"]),
     traces=dict(quick=[dict(profile="parallel", jobs=6, count=30, threads=[2, 4, 8, 16, 3, 16])],
                 thorough=[dict(profile="parallel", jobs=12, count=400, threads=[2, 4, 8, 16, 3, 16])]),
